@@ -64,14 +64,20 @@ def main(ck, tier, w):
         big = [s for s in pick if len(s) > 10000][:1]
         pick = [s for s in pick if len(s) <= 10000] + big
 
+        H, K = r0.randbytes(20), b'\x03' + r0.randbytes(32)
+
         def txs_fn(h, c):
             txs = [btc.coinbase(h, None, outs=[{'val': 50 * 10 ** 8, 'spk': btc.p2pkh(r0.randbytes(20))}])]
             if h >= 1:
                 s = pick[(h * 3) % len(pick)]
                 t = pick[(h * 3 + 1) % len(pick)]
                 u = pick[(h * 3 + 2) % len(pick)]
+                # the same 20 bytes under different templates in different blocks: a miner-chosen script in one block must
+                # not change how another output is reported later (nothing may be remembered across scripts)
+                same = [btc.p2sh(H), btc.p2pkh(H), btc.p2pk(K), btc.p2sh(btc.hash160(K)), btc.p2pkh(btc.hash160(K)), b'\x00\x14' + H][(h - 1) * 2:(h - 1) * 2 + 2]
                 txs.append({'ver': 1, 'ins': [{'txid': r0.randbytes(32), 'idx': 1, 'sig': t, 'seq': 5, 'wit': [u, b'', s[:70]]}],
-                            'outs': [{'val': 7, 'spk': s}, {'val': 8, 'spk': btc.p2pkh(r0.randbytes(20))}, {'val': 9, 'spk': u}], 'lock': h})
+                            'outs': [{'val': 7, 'spk': s}, {'val': 8, 'spk': btc.p2pkh(r0.randbytes(20))}, {'val': 9, 'spk': u}]
+                                    + [{'val': 10 + n, 'spk': x} for n, x in enumerate(same)], 'lock': h})
             return txs
         blocks = chains.std_chain(4, coin, txs_fn=txs_fn)
         d = datadir.simple_dir(w.sub('dd'), blocks, coin).write()
